@@ -118,6 +118,7 @@ let parse_cmd (toks : string list) : cmd =
   | ["keys"; a; g] -> CKeys (o a, dec_opt g)
   | ["merge"; d; a; b] -> CMerge (o d, o a, o b)
   | ["write"; a] -> CWrite (o a)
+  | ["reread"; d; a] -> CReread (o d, o a)
   | ["dump"; a] -> CDump (o a)
   | ["getall"; a] -> CGetAll (o a)
   | ["path"; a] -> CPath (o a)
